@@ -43,6 +43,11 @@ def strings(raw):
 
 
 FACT_THEOREMS = {
+    # the same tie, the parts each property rests on
+    "C05": ("theories/Properties/SourceKernel.v", ["SRC_append", "SRC_packet", "SRC_data_to_lanes", "SRC_update", "SRC_finalize"]),
+    "C06": ("theories/Properties/SourceKernel.v", ["SRC_checkpoint", "SRC_from_checkpoint", "SRC_append", "SRC_packet"]),
+    "C11": ("theories/Properties/SourceKernel.v", ["SRC_from_checkpoint", "SRC_append", "SRC_packet"]),
+    "C14": ("theories/Properties/SourceKernel.v", ["SRC_checkpoint", "SRC_packet"]),
     # the SIMD kernels and wrapper types, translated from the current source, are the hand-written models
     "C02": ("theories/Properties/SourceKernelX86.v",
             ["SRC_sse_kernel", "SRC_sse_remainder_path", "SRC_sse_wrapper", "SRC_sse_from_identity",
@@ -54,7 +59,7 @@ FACT_THEOREMS = {
     # the word-level kernel of src/portable.rs, translated from the current source, is the hand-written model
     "C01": ("theories/Properties/SourceKernel.v",
             ["SRC_new", "SRC_zipper_merge_and_add", "SRC_update", "SRC_permute", "SRC_permute_and_update", "SRC_module_reduction",
-             "SRC_rotate_32_by", "SRC_update_lanes", "SRC_data_to_lanes", "SRC_remainder", "SRC_update_remainder", "SRC_finalize"]),
+             "SRC_rotate_32_by", "SRC_update_lanes", "SRC_data_to_lanes", "SRC_remainder", "SRC_packet", "SRC_update_remainder", "SRC_finalize", "SRC_append", "SRC_checkpoint", "SRC_from_checkpoint"]),
     "C15": ("theories/Properties/FactsC15.v", ["C15_no_global_state"]),
     "C07": ("theories/Properties/FactsC07.v", ["C07_default_impls"]),
     "C12": ("theories/Properties/FactsC12.v", ["C12_adapter_macros"]),
